@@ -76,6 +76,30 @@ theorem result_class_total (r : Interp.IResult)
 example : (Interp.IResult.OutOfGas ≠ .Continue ∧ Interp.IResult.OutOfGas ≠ .CallOrCreate ∧
     Interp.IResult.OutOfGas ≠ .FatalExternalError ∧ Interp.IResult.OutOfGas ≠ .InvalidExtDelegateCallTarget) := by decide
 
+/-- `transact_result_class_total`, the part that is proved: every COMPLETED executed transaction ends in exactly one of
+success / revert / halt — the class (`SuccessOrHalt::from`) of the final `InstructionResult` of its first frame, never an
+internal flag — with `gas_used = spent − refunded` of the handler's final meter (to which `transact_gas_bounds` applies).
+That every transaction completes within an explicit fuel bound (`FullStatement_transact_total`) needs the termination
+measure of C25 (`run_terminates`, one frame with an abstract child oracle) lifted to the stack of frames: not proved. -/
+theorem transact_result_class_total_partial (fuel : Nat) (w w' : World) (e : Evm.Env) (spec : Nat) (r : TxResult)
+    (h : transact fuel w e spec = .ok (.executed r, w')) :
+    ∃ (res : Interp.ChildResult) (floorGas refund : Nat),
+      classOf res.result = some r.cls ∧ r.reason = res.result ∧
+      r.gasUsed = U64ops.wsub (Gas.spent (finalGas e (GasCalc.canon spec) floorGas refund res))
+                    (Gas.i64AsU64 (finalGas e (GasCalc.canon spec) floorGas refund res).refunded) :=
+  Proofs.Evm.transact_class fuel w w' e spec r h
+
+/-- the full statement of totality: on a fresh world whose oracle answers every question the run asks, `2 · gas_limit + 2`
+units of fuel always suffice and the run never panics -/
+def FullStatement_transact_total : Prop :=
+  ∀ (spec : Nat) (pre : List PreAcct) (dbHasStorage : Bool) (oracle : List PcAnswer) (e : Evm.Env),
+    (∀ p ∈ pre, p.codeHash = (if p.code.isEmpty then Evm.KECCAK_EMPTY else Keccak.keccak256w p.code)) →
+    match transact (2 * e.tx.gasLimit + 2) (Spec.Evm.freshWorld spec pre dbHasStorage oracle) e spec with
+    | .ok _ => True
+    | .error (.oracleMiss _) => True
+    | .error (.fatal _) => True
+    | .error _ => False
+
 /-- success is exactly the `return_ok!` results a frame can end with; a `revert` class result gives its gas back
 (`return_revert!`) -/
 theorem result_class_sound (r : Interp.IResult) :
